@@ -87,8 +87,9 @@ class DetectVarNames( ast.NodeVisitor ):
           elif x in self.globals: n = (False, x)
         elif isinstance( v, ast.Call ): # int(x), or a helper function pick()
           self.visit( v )
-        elif isinstance( v, ( ast.Subscript, ast.BinOp, ast.UnaryOp, ast.IfExp ) ):
-          # s.sel[0:2], s.vec[0], s.a + 1: the signals inside the index are read
+        else:
+          # s.sel[0:2], s.vec[0], s.a + 1, s.q == 1, ...: the signals inside
+          # the index expression are read
           self.visit( v )
 
         num.append(n)
@@ -189,13 +190,14 @@ class DetectVarNames( ast.NodeVisitor ):
           elif x in self.globals: n = (False, x)
         elif isinstance( v, ast.Call ): # int(x), or a helper function pick()
           self.visit( v )
-        elif isinstance( v, ( ast.Subscript, ast.BinOp, ast.UnaryOp, ast.IfExp ) ):
-          # s.sel[0:2], s.vec[0], s.a + 1: the signals inside the index are read
-          self.visit( v )
         elif isinstance( v, ast.Slice ): # s.sel, may be constant
           raise TypeError( f"Having slice in the middle such as s.x[1][1:2][1][2] "
                            f"doesn't make sense at line {input_node.lineno} of "
                            f"update block {self.upblk.__name__} in class {self.obj.__class__}." )
+        else:
+          # s.sel[0:2], s.vec[0], s.a + 1, s.q == 1, ...: the signals inside
+          # the index expression are read
+          self.visit( v )
 
         num.append(n)
 
